@@ -24,6 +24,8 @@ def view_convert(scratch, gaf_text, gfa_path, fmt, tag="x"):
 
     inp = os.path.join(scratch, f"{tag}.in.gaf")
     outp = os.path.join(scratch, f"{tag}.out.gaf")
+    if len(gaf_text) % 3 == 1 and gaf_text.endswith("\n"):
+        gaf_text = gaf_text[:-1]  # about a third of the input files end without a newline
     fw.write_text(inp, gaf_text)
     if os.path.exists(outp):
         os.remove(outp)
